@@ -4,6 +4,7 @@ from __future__ import annotations
 import ast
 
 from engine.defuse import value_sources
+from engine.flow import same_name_value
 from engine.specialize import Spec
 from .common import open_path_expr
 
@@ -64,6 +65,12 @@ def check_save_load_path(ctx):
         for n in opens:
             pe = open_path_expr(n.ast)
             ch = transformation_chain(f, pe, n, pname) if pe is not None else None
+            if ch is None and isinstance(pe, ast.Name):
+                # written under a temporary name and moved onto the destination afterwards
+                for m in g.nodes:
+                    if m.kind == "call" and _fname(m.ast) in ("replace", "rename", "move") and len(m.ast.args) == 2 \
+                            and isinstance(m.ast.args[0], ast.Name) and same_name_value(f, m.ast.args[0], m, pe, n):
+                        ch = transformation_chain(f, m.ast.args[1], m, pname)
             ok = ch is not None
             ctx.ob("path.names-the-given-file", f, n.ast, ok,
                    "the file opened is the `%s` argument (through %s)" % (pname, ch or "nothing") if ok else
